@@ -105,7 +105,7 @@ def transport_id(rng, kind=None):
 # ---------------------------------------------------------------------------------------------------------
 # designation descriptors (SPC-4 7.8.6) -> (bytes, expected dict)
 
-def designator(rng, kind=None):
+def designator(rng, kind=None, piv=True):
     kind = kind or rng.choice(["vendor", "t10", "eui8", "eui12", "eui16", "naa2", "naa3", "naa5", "naa6", "relport", "tpg", "lug", "md5", "name"])
     hdr = dict(code_set=1, piv=0, association=rng.randrange(3), protocol_identifier=0)
     if kind == "vendor":
@@ -178,7 +178,7 @@ def designator(rng, kind=None):
             body += b"\0"
         hdr["designator_type"], d = 8, dict(scsi_name_string=body)
         hdr["code_set"] = 3
-    if rng.random() < 0.3 and hdr["association"] in (1, 2):
+    if piv and rng.random() < 0.3 and hdr["association"] in (1, 2):
         hdr["piv"], hdr["protocol_identifier"] = 1, rng.choice([0, 5, 6])
     b = bytearray(4)
     put(b, 0, 7, 4, hdr["protocol_identifier"])
